@@ -407,11 +407,21 @@ func (w *world) doOp(p op) {
 		}
 		err := w.sh.DeleteSeriesRange(ctx, &elemIter{list: list}, min, max)
 		ret := w.stamp()
-		simrt.RWUnlock(&w.guard[m])
 		for _, e := range evs {
 			e.Ret = ret
 			e.Failed = err != nil
 		}
+		// checked immediately: the deleted range must be gone as soon as the delete has returned
+		if err == nil {
+			for _, s := range p.S {
+				for f := 0; f < nFields; f++ {
+					if _, ok := w.h.Cells[model.SF{Series: s, Field: f}]; ok {
+						w.read(s, f, models.MinNanoTime, models.MaxNanoTime, true, model.Inf, fmt.Sprintf("c%d(after its delete)", p.C))
+					}
+				}
+			}
+		}
+		simrt.RWUnlock(&w.guard[m])
 		if err != nil {
 			r.Violate("C03:delete-error", "delete", "DeleteSeriesRange failed with no fault injected: %v", err)
 		}
@@ -483,6 +493,9 @@ func (w *world) read(s, f int, min, max int64, asc bool, asOf uint64, who string
 		v.RInv, v.RRet = model.Inf-1, model.Inf-1
 	}
 	class, detail := v.CheckRead(s, f, min, max, asc, got)
+	if class != "" && os.Getenv("DSIM_DEBUG") != "" {
+		detail += " || " + w.dump(s, f)
+	}
 	if class != "" {
 		prop := "C01"
 		switch class {
@@ -507,6 +520,35 @@ func (w *world) fieldsOf(m int) string {
 		return "(measurement has no field set)"
 	}
 	return fmt.Sprint(mf.FieldKeys())
+}
+
+// dump describes where the engine holds data of one series field (debugging aid for triage).
+func (w *world) dump(s, f int) string {
+	e := w.engine()
+	if e == nil {
+		return "no engine"
+	}
+	key := tsm1.SeriesFieldKeyBytes(string(models.MakeKey([]byte(measName(s/nTagSets)), seriesTags(s))), fieldName(f))
+	out := fmt.Sprintf("cache=%d values: ", len(e.Cache.Values(key)))
+	for _, v := range e.Cache.Values(key) {
+		out += fmt.Sprintf("%d=%v ", v.UnixNano(), v.Value())
+	}
+	for _, st := range e.FileStore.Stats() {
+		out += fmt.Sprintf("[%s tomb=%v min=%d max=%d] ", filepath.Base(st.Path), st.HasTombstone, st.MinTime, st.MaxTime)
+	}
+	for _, tf := range e.FileStore.Files() {
+		if tf.Contains(key) {
+			out += fmt.Sprintf("{%s contains key; tombstones=%v} ", filepath.Base(tf.Path()), tf.TombstoneRange(key))
+		}
+	}
+	if w.r.FS != nil {
+		for _, l := range w.r.FS.Log {
+			if (strings.Contains(l, ".tsm") || strings.Contains(l, "tombstone")) && !strings.Contains(l, " write ") && !strings.Contains(l, "untracked") {
+				out += "\n    " + l
+			}
+		}
+	}
+	return out
 }
 
 // context names the engine state a violation was observed in, for known-finding signatures.
@@ -655,6 +697,9 @@ func fileKind(p string) string {
 func exec(r *hx.Run, prog []json.RawMessage) {
 	w := &world{r: r, h: model.NewHistory(), typeOf: map[[2]int]int{}}
 	fs := r.NewFS("db")
+	if os.Getenv("DSIM_DEBUG") != "" {
+		fs.LogCap = 100000
+	}
 	w.options()
 	w.imgCap = r.CfgInt("imgcap", 0)
 	w.cutDen = r.CfgInt("cutden", 40)
@@ -687,7 +732,7 @@ func exec(r *hx.Run, prog []json.RawMessage) {
 			simrt.Spawn(fmt.Sprintf("client%d", c), func() {
 				defer wg.Done()
 				for _, p := range ops {
-					if len(r.Viol) > 0 {
+					if len(r.Viol) > 0 || r.Aborted {
 						return
 					}
 					w.doOp(p)
@@ -721,7 +766,7 @@ func exec(r *hx.Run, prog []json.RawMessage) {
 	simfs.Activate(nil)
 	// crash images: recover with the real code, read everything, write again
 	for _, im := range w.images {
-		if len(r.Viol) > 0 {
+		if len(r.Viol) > 0 || r.Aborted {
 			break
 		}
 		w.recover(im)
@@ -737,6 +782,14 @@ func (w *world) recover(im image) {
 	f2 := &simfs.FS{Root: im.dir, Now: time.Now}
 	simfs.Activate(f2)
 	defer simfs.Activate(nil)
+	if os.Getenv("DSIM_DEBUG") != "" {
+		filepath.Walk(im.dir, func(p string, info os.FileInfo, err error) error {
+			if err == nil && !info.IsDir() && !strings.Contains(p, "_series") && !strings.Contains(p, "/index/") {
+				r.Logf("image file %s size=%d", strings.TrimPrefix(p, im.dir), info.Size())
+			}
+			return nil
+		})
+	}
 	r.Simulate(func() {
 		w2 := &world{r: r, h: w.h, opt: w.opt, typeOf: w.typeOf}
 		if err := w2.open(im.dir); err != nil {
